@@ -594,11 +594,19 @@ class Integer(Type):
     def set_restricted_to_range(self, minimum, maximum, has_extension_marker):
         self.has_extension_marker = has_extension_marker
 
+        # An extensible constraint is not OER-visible; any integer
+        # may be sent (X.696, 8.2.3 and 10.4).
+        if has_extension_marker:
+            self.signed = True
+            self.minimum = None
+            self.maximum = None
+            self.length = None
+            self.fmt = None
+
+            return
+
         if minimum != 'MIN':
             self.signed = (minimum < 0)
-
-        if has_extension_marker:
-            return
 
         # MIN and MAX denote the bounds of the parent type, if it has
         # any.
